@@ -126,6 +126,8 @@ class Ctx:
             self.known_hits[mechanism] = self.known_hits.get(mechanism, 0) + 1
             return
         replay = None
+        if isinstance(case, dict):
+            case = {k: v for k, v in case.items() if not str(k).startswith("_")}
         n = self._replays_written.get(mechanism, 0)
         if case is not None and n < MAX_REPLAYS_PER_MECHANISM and not self.replay_mode:
             d = env.REPLAY_DIR / self.pid
